@@ -55,7 +55,7 @@ def policy_stream(profile, quick, thorough, corpus=None, seeds=3, extra=None):
 PROPS = {
     "C01": {
         "lean": ["Seccomp.Proofs.C01"],
-        "streams": [policy_stream("names", 1500, 15000, corpus="policy", seeds=2)],
+        "streams": [policy_stream("names", 1500, 15000, corpus="policy", seeds=2), policy_stream("mix", 300, 3000, corpus="policy")],
         "trusted": CBPF_TRUST + ["x86_64/i386/arm/aarch64/x32 tables enter only through the correspondence (the theorems hold for every table)"],
         "assumptions": ["the model equals the code on the generated policies (exact instruction lists, all four table architectures, both byte orders); the theorem covers all policies of the model"],
     },
